@@ -282,7 +282,7 @@ func (p *Program) lookupType(pkgName, name string) types.Type {
 			}
 		}
 		for _, imp := range sp.Pkg.Imports() {
-			if imp.Name() == pkgName {
+			if imp.Name() == pkgName || importAliases[pkgName] == imp.Path() {
 				if o := imp.Scope().Lookup(name); o != nil {
 					return o.Type()
 				}
@@ -422,4 +422,11 @@ func (p *Program) keyCall(x *Exec, st *State, fn *ssa.Function, args []Val) (Val
 		return kv, true
 	}
 	return nil, false
+}
+
+// usual import aliases of dependency packages (the contract files name types the way the sources do)
+var importAliases = map[string]string{
+	"gogotypes": "github.com/cosmos/gogoproto/types",
+	"sdkmath":   "cosmossdk.io/math",
+	"tmbytes":   "github.com/cometbft/cometbft/libs/bytes",
 }
